@@ -15,6 +15,20 @@ folded or not, labels with blanks, 0-5 comments, precision 16..20, plain / .gz n
         as themselves), mask (corners forced when mask_corners=True, the documented reader option), folding
         status, pop_ids and the comments (as the writer stores them: stripped); array_to_file/array_from_file
         and Spectrum.from_file on the generic file agree.
+  (iv)  memory layouts (c14_layouts.py): every generated spectrum is ALSO rebuilt, with the same logical content, as the
+        result of reorder_pops / .transpose(perm) / .T / .swapaxes (d >= 2), from Fortran-ordered and axis-permuted input
+        (d >= 2), as a stepped slice and as a reversed slice of a larger Spectrum, with copy=False on stepped/reversed
+        views (mask in a Fortran-ordered block), with a stride-0 broadcast mask / a bool mask (constant masks) and with
+        numpy.ma.nomask (no masked entry).  Each of these goes through to_file/from_file under two configurations
+        (the case's own and the opposite: other precision class, other format, other transport, other mask_corners),
+        Numerics.array_to_file/array_from_file (masked object and bare data view) and the pickler / every protocol.
+        Correspondence inside Coq: the memory block, offset and strides of data and mask are handed to the model, which
+        computes the logical content itself ([v_ravel]) and whose to_file of it must be the text the implementation
+        wrote (item IWriteV); every text written must equal the Coq-certified reference text of the logical content;
+        the round-trip predicate is evaluated on the real code (failing input = case + layout as replay).
+  (v)   source-shape obligations (fail closed): statements of to_file / from_file / array_to_file / array_from_file /
+        pickler / unpickler are the ones the model was written against; data and mask lines come from the C-order ravel
+        of the logical array; the readers reshape in C order.
 Kept out of the generator because the format cannot carry them and the property does not promise them
 (C14_label_with_quote_refuted, hypotheses of C14_roundtrip): labels containing a double quote, labels or
 comments with an embedded line terminator, non-ASCII text, axes of length 0.
@@ -22,6 +36,7 @@ comments with an embedded line terminator, non-ASCII text, axes of length 0.
 import json, math, os
 from harness import lib
 from harness.lib import b
+from harness.props import c14_layouts as LY
 
 INF = float('inf')
 
@@ -63,6 +78,12 @@ def copt(x, f):
 
 def cspec(shape, toks, mask, folded, labels, extrap):
     return '(mkSpec %s %s %s %s %s %s)' % (cnl(shape), pcsl(toks), _POOL[0].share(cbl(mask)), b(folded), copt(labels, csl), copt(extrap, cs))
+
+def czl(xs):
+    return '[' + '; '.join('(%d)%%Z' % int(x) for x in xs) + ']'
+
+def cview(block, off, shape, strides):
+    return '(mkView %s (%d)%%Z %s %s)' % (block, int(off), cnl(shape), czl(strides))
 
 def carr(shape, xs, f):
     return '(mkArray %s %s)' % (cnl(shape), f(xs))
@@ -296,6 +317,11 @@ def cls_of(msg):
             return k
     return 'other'
 
+NOMASK_KEY = 'to_file-nomask-mask-line'
+NOMASK_WHAT = ('Spectrum.to_file of a spectrum whose mask is numpy.ma.nomask (no masked entry, e.g. after shrink_mask()) writes a mask line with '
+               'ONE flag for all entries (numpy.asarray(self.mask, int).ravel() of the scalar nomask); from_file then fills the mask from '
+               'uninitialised memory - Spectrum_mod.py to_file')
+
 GZ_KEYS = {'write': ('to_file-gz-TypeError',
                      'Spectrum.to_file with a file name ending in .gz raises TypeError (gzip stream opened with mode "wb", str written) - Spectrum_mod.py:319'),
            'read': ('from_file-gz-TypeError',
@@ -306,6 +332,8 @@ def run(ctx):
                 'mask density in {0,.15,.3,.5,1} (+corners), folded (declared or via fold()), labels from a pool with blanks/tabs/#/flag words or None, '
                 '0-5 comments from a pool with padding/#/quotes/CR-LF tails, precision 16..20, foldmaskinfo, .gz, mask_corners, alias, '
                 'array writer on ndarray / masked Spectrum / open file, hand-written pre-1.3 layouts) from one PRNG; '
+                'each case x memory layouts {reorder_pops, transpose, T, swapaxes, fortran, ctor_permuted (d>=2, permutation moving the non-singleton axes), '
+                'step, neg, nocopy_view (all d), mask_broadcast, mask_scalar (constant mask), nomask (no masked entry)} x 2 writer configurations; '
                 'distinct = distinct (shape, values, mask, flags, labels, comments, precision); non-trivial = more than one entry or labels or comments')
     ctx.assumptions += [
         "oracle of the model: '%.<p>g' % x is a non-empty token without white space and numpy reads it back as x rounded to p significant digits "
@@ -315,6 +343,9 @@ def run(ctx):
         'Spectrum.from_file(mask_corners=True) forces the two corner entries masked (documented reader option); the mask is compared up to that',
         'not generated (format cannot carry them, see C14_label_with_quote_refuted and the hypotheses of C14_roundtrip): labels containing a double '
         'quote, labels/comments with an embedded line terminator, non-ASCII text, zero-length axes']
+    ctx.assumptions += ['memory layouts: the block / offset / strides of data and mask are read off the numpy objects by the driver (rebuilt from '
+                        'exactly these and compared bit for bit before they count); the logical content is computed from them by the model inside Coq']
+    src_broken = LY.source_obligations(ctx)
     ctx.trusted += ['Section variables of Proofs/FileFormatProofs.v: fmt, parse, round with parse (fmt p x) = round p x and tok_ok (fmt p x) '
                     '(instance tnum proves them satisfiable); the pickle protocol itself (bytes <-> reduce tuple) and gzip are trusted']
     rng = ctx.rng
@@ -352,9 +383,17 @@ def run(ctx):
         c['_atoks'] = atoks
         c['array_mirror_text'] = array_mirror_text(c['comments'], c['shape'], atoks)
         c['old_files'] = [{'kind': k, 'mc': c['old_mc'], 'text': old_file_text(k, c['comments'], c['shape'], atoks)} for k in c['old_kinds']]
+        if 'layouts' not in c:
+            # quick: every case; thorough: every second case (2000 spectra x ~10 layouts) to stay inside the time budget
+            c['layouts'] = LY.gen_layouts(c, ctx.seed, c['_mask']) if (ctx.quick or c['id'] % 2 == 0) else []
     payload = [{k: v for k, v in c.items() if not k.startswith('_')} for c in cases]
-    res = lib.run_impl('c14_impl.py', payload, timeout=3000)
-    byid = {r['id']: r for r in res}
+    # the driver is run on 4 slices of the cases side by side (fresh interpreter each)
+    from concurrent.futures import ThreadPoolExecutor
+    nproc = 1 if len(payload) < 8 else 4
+    slices = [payload[k::nproc] for k in range(nproc)]
+    with ThreadPoolExecutor(nproc) as ex:
+        parts = list(ex.map(lambda sl: lib.run_impl('c14_impl.py', sl, timeout=3000), slices))
+    byid = {r['id']: r for part in parts for r in part}
 
     exprs, meta = [], {}
     seen_keys = set()
@@ -362,7 +401,7 @@ def run(ctx):
     calls = {}
     def called(k):
         calls[k] = calls.get(k, 0) + 1
-    def violation(cls, what, c, r, key=None):
+    def violation(cls, what, c, r, key=None, layout=None):
         if key is not None:
             if key in seen_keys:
                 return
@@ -371,8 +410,16 @@ def run(ctx):
             viol_classes[cls] = viol_classes.get(cls, 0) + 1
             if viol_classes[cls] > 1 or len(viol_classes) > 6:
                 return
-        ctx.violation(what, data={'case': {k: v for k, v in c.items() if not k.startswith('_')}, 'impl': r}, key=key)
+        data = {'case': {k: v for k, v in c.items() if not k.startswith('_')}, 'impl': r}
+        if layout is not None:
+            data['layout'] = layout
+        ctx.violation(what, data=data, key=key)
     pred_failed = set()
+    corr_layout_bad = []
+    lay_stats = {}           # layout kind -> counters (regime really exercised)
+    def lstat(kind, k, n=1):
+        d0 = lay_stats.setdefault(kind, {})
+        d0[k] = d0.get(k, 0) + n
 
     for c in cases:
         r = byid[c['id']]
@@ -399,7 +446,8 @@ def run(ctx):
             continue
         toks = c['_toks']; atoks = c['_atoks']
         its = Items(c['id']); _POOL[0] = its
-        spec = cspec(shape, toks, o['mask'], o['folded'], o['pop_ids'], None if o['extrap_x'] is None else repr(o['extrap_x']))
+        spec = its.share(cspec(shape, toks, o['mask'], o['folded'], o['pop_ids'], None if o['extrap_x'] is None else repr(o['extrap_x'])))
+        ccom = its.share(csl(c['comments']))
         comments_kept = [x.strip() for x in c['comments']]
         if c['fmi']:
             want = {'shape': shape, 'data': c['_data'], 'toks': toks, 'mask': corners(o['mask']) if c['mc'] else o['mask'],
@@ -410,19 +458,19 @@ def run(ctx):
                     'folded': False, 'pop_ids': None, 'comments': comments_kept}
         # ---------------- theorem instance on this input
         its.add('C14_roundtrip%s evaluated on the input' % ('' if c['fmi'] else '_old_format'),
-                '(IRound %s %s %s %s)' % (csl(c['comments']), b(c['mc']), b(c['fmi']), spec))
+                '(IRound %s %s %s %s)' % (ccom, b(c['mc']), b(c['fmi']), spec))
         # ---------------- (i) the file the implementation wrote
         w = r['write']
         if 'text' in w:
             called('to_file')
-            its.add('Model.to_file = file written by Spectrum.to_file', '(IWrite %s %s %s %s)' % (csl(c['comments']), b(c['fmi']), spec, pcs(w['text'])))
+            its.add('Model.to_file = file written by Spectrum.to_file', '(IWrite %s %s %s %s)' % (ccom, b(c['fmi']), spec, pcs(w['text'])))
         elif c['gz'] and w.get('etype') == 'TypeError' and 'bytes' in w['error']:
             ctx.count('gz_write_TypeError')
             violation('gzw', GZ_KEYS['write'][1] + ': ' + w['error'], c, w, key=GZ_KEYS['write'][0])
         else:
             pred_failed.add(c['id'])
             violation('write', 'Spectrum.to_file raised %s (shape %r, precision %d, gz=%s)' % (w['error'], shape, p, c['gz']), c, w)
-        its.add('Model.to_file = model-written file handed to the implementation', '(IWrite %s %s %s %s)' % (csl(c['comments']), b(c['fmi']), spec, pcs(c['mirror_text'])))
+        its.add('Model.to_file = model-written file handed to the implementation', '(IWrite %s %s %s %s)' % (ccom, b(c['fmi']), spec, pcs(c['mirror_text'])))
         # ---------------- (ii)+(iii) readers
         for name, text in (('read_own', w.get('text')), ('read_model', c['mirror_text'])):
             rr = r.get(name)
@@ -491,15 +539,15 @@ def run(ctx):
         adata = [float('nan') if (c['array_masked'] and m) else x for x, m in zip(c['_data'], o['mask'])]
         awant = {'shape': shape, 'data': adata, 'toks': atoks, 'mask': [False] * n, 'folded': None, 'pop_ids': None, 'comments': comments_kept}
         arr = carr(shape, atoks, pcsl)
-        its.add('C14_array_roundtrip evaluated on the input', '(IARound %s %s)' % (csl(c['comments']), arr))
+        its.add('C14_array_roundtrip evaluated on the input', '(IARound %s %s)' % (ccom, arr))
         aw = ar['write']
         if 'text' in aw:
             called('array_to_file')
-            its.add('Model.array_to_file = file written by Numerics.array_to_file', '(IAWrite %s %s %s)' % (csl(c['comments']), arr, pcs(aw['text'])))
+            its.add('Model.array_to_file = file written by Numerics.array_to_file', '(IAWrite %s %s %s)' % (ccom, arr, pcs(aw['text'])))
         else:
             pred_failed.add(c['id'])
             violation('awrite', 'Numerics.array_to_file raised %s' % aw['error'], c, aw)
-        its.add('Model.array_to_file = model-written array file', '(IAWrite %s %s %s)' % (csl(c['comments']), arr, pcs(c['array_mirror_text'])))
+        its.add('Model.array_to_file = model-written array file', '(IAWrite %s %s %s)' % (ccom, arr, pcs(c['array_mirror_text'])))
         for name, text in (('read_own', aw.get('text')), ('read_model', c['array_mirror_text'])):
             rr = ar.get(name)
             if rr is None or text is None:
@@ -528,6 +576,166 @@ def run(ctx):
             if bad:
                 pred_failed.add(c['id'])
                 violation('array:spectrum_read', bad[0][:250], c, sr)
+        # ---------------- (iv) the same spectrum in other memory layouts
+        cfgs = [LY.own_config(c), LY.alt_config(c)]
+        p2 = cfgs[1]['precision']
+        toks2 = [tok(x, p2) for x in c['_data']]
+        refs = [(p, toks, c['mirror_text']),
+                (p2, toks2, mirror_text(c['comments'], shape, toks2, c['_mask'], c['_folded'], c['pop_ids'], cfgs[1]['fmi']))]
+        amask_toks = ['nan' if m else t for t, m in zip(toks, o['mask'])]
+        arefs = {'masked': (amask_toks, array_mirror_text(c['comments'], shape, amask_toks)),
+                 'plain': (toks, array_mirror_text(c['comments'], shape, toks))}
+        lays = r.get('layouts', [])
+        if lays:
+            its.add('Model.to_file = reference text of the second writer configuration (precision %d, foldmaskinfo=%s)' % (p2, cfgs[1]['fmi']),
+                    '(IWrite %s %s %s %s)' % (ccom, b(cfgs[1]['fmi']),
+                                              cspec(shape, toks2, o['mask'], o['folded'], o['pop_ids'], None if o['extrap_x'] is None else repr(o['extrap_x'])),
+                                              pcs(refs[1][2])))
+            for nm, (tk, txt) in arefs.items():
+                its.add('Model.array_to_file = reference text of the %s array' % nm, '(IAWrite %s %s %s)' % (ccom, carr(shape, tk, pcsl), pcs(txt)))
+        def want_for(cfg, tk):
+            if cfg['fmi']:
+                return {'shape': shape, 'data': c['_data'], 'toks': tk, 'mask': corners(o['mask']) if cfg['mc'] else o['mask'],
+                        'folded': o['folded'], 'pop_ids': o['pop_ids'], 'comments': comments_kept}
+            m0 = [False] * n
+            return {'shape': shape, 'data': c['_data'], 'toks': tk, 'mask': corners(m0) if cfg['mc'] else m0,
+                    'folded': False, 'pop_ids': None, 'comments': comments_kept}
+        tokidx = {}
+        for i, t in enumerate(toks):
+            tokidx.setdefault(t, i)
+        for lr in lays:
+            kind = lr['kind']; linfo = {'kind': kind, 'prm': lr.get('prm')}
+            L = 'case %d layout %s' % (c['id'], kind)
+            lstat(kind, 'built')
+            if lr.get('layout_driver_failed') or 'build_error' in lr:
+                e = lr.get('error') or lr['build_error']['error']
+                ctx.obligation('%s: the layout could be built' % L, False, 'harness', e)
+                pred_failed.add(c['id'])
+                violation('layout:%s:build' % kind, 'a spectrum with the content of case %d could not be put in memory layout %s (%r): %s'
+                          % (c['id'], kind, lr.get('prm'), e), c, lr, layout=linfo)
+                continue
+            bt = lr['built']
+            if (bt['shape'] != shape or bt['mask'] != o['mask'] or bt['folded'] != o['folded'] or bt['pop_ids'] != o['pop_ids']
+                    or bt['extrap_x'] != o['extrap_x'] or not bt['is_spectrum'] or len(bt['data']) != n
+                    or not all(same(a, bb) for a, bb in zip(bt['data'], o['data']))):
+                ctx.obligation('%s: the rebuilt spectrum has the logical content of the case' % L, False, 'harness', repr(bt)[:300])
+                continue
+            ctx.case(signature=(shape, [repr(x) for x in c['_data']], c['_mask'], o['folded'], c['pop_ids'], c['comments'], p, kind, lr.get('prm')) if n > 1 else None)
+            if 'view_error' in lr:
+                ctx.obligation('%s: block / offset / strides of data and mask extracted' % L, False, 'harness', lr['view_error']['error'])
+                dv = mv = None
+            else:
+                vd, vm = lr['data_view'], lr['mask_view']
+                md = lr['memory_order_differs']
+                if md['data']: lstat(kind, 'data_memory_order_differs')
+                if md['mask']: lstat(kind, 'mask_memory_order_differs')
+                if not vd['c_contiguous']: lstat(kind, 'data_not_c_contiguous')
+                if vm['shape'] == shape and not vm['c_contiguous']: lstat(kind, 'mask_not_c_contiguous')
+                if vm['shape'] == shape and n > 1 and all(st == 0 for st in vm['strides']): lstat(kind, 'mask_stride0')
+                if any(st < 0 for st in vd['strides']): lstat(kind, 'data_negative_stride')
+                if lr['mask_is_nomask']: lstat(kind, 'mask_is_nomask')
+                dv = cview('(sel %s %s%%N)' % (pcsl(toks), cnl([tokidx.get(tok(x, p), n) for x in vd['block']])), vd['off'], vd['shape'], vd['strides'])
+                if lr['mask_is_nomask']:      # numpy.ma.nomask read as an array: False broadcast over the shape (numpy.ma.getmaskarray)
+                    mv = cview('[false]', 0, shape, [0] * len(shape))
+                else:
+                    mv = cview(_POOL[0].share(cbl(vm['block'])), vm['off'], vm['shape'], vm['strides'])
+            for k, w in enumerate(lr['writes']):
+                cfg = w['cfg']; pk_, tk_, ref = refs[k]
+                W = '%s to_file(precision=%d, foldmaskinfo=%s, %s)' % (L, cfg['precision'], cfg['fmi'], 'gz' if cfg['gz'] else 'plain')
+                if cfg != cfgs[k]:
+                    ctx.obligation('%s: configuration is the requested one' % W, False, 'harness', repr(cfg)); continue
+                if 'text' not in w:
+                    pred_failed.add(c['id'])
+                    ctx.obligation('predicate %s' % W, False, 'predicate', w.get('error', ''))
+                    violation('layout:%s:write' % kind, 'Spectrum.to_file raised %s on a spectrum in memory layout %s (shape %r, precision %d, gz=%s)'
+                              % (w.get('error'), kind, shape, cfg['precision'], cfg['gz']), c, lr, layout=linfo)
+                    continue
+                called('to_file(layout)')
+                lines = w['text'].split('\n')
+                defect = (lr.get('mask_is_nomask') and cfg['fmi'] and n > 1 and len(lines) >= 2 and lines[-2].split() == ['0']
+                          and w['text'] == ref[:len(ref) - len(' '.join(['0'] * n)) - 1] + '0\n')
+                if defect:
+                    ctx.count('nomask_one_flag_mask_line')
+                    ctx.obligation('%s: file written = Model.to_file of the logical content' % W, False, 'correspondence',
+                                   'mask line carries 1 flag for %d entries' % n)
+                    ctx.obligations[-1]['known_key'] = NOMASK_KEY
+                    violation('nomask', NOMASK_WHAT + ': shape %r -> mask line "0"' % (shape,), c, lr, key=NOMASK_KEY, layout=linfo)
+                    continue
+                if k == 0 and dv is not None:
+                    its.add('memory layout %s: Model.to_file of the logical content the model computes from block, offset and strides = file written by Spectrum.to_file' % kind,
+                            '(IWriteV %s %s %s %s %s %s)' % (ccom, b(cfg['fmi']), dv, mv, spec, pcs(w['text'])))
+                same_text = w['text'] == ref
+                ctx.obligation('%s: file written = Model.to_file of the logical content (Coq-certified reference text)' % W, same_text, 'correspondence',
+                               '' if same_text else 'first difference at byte %d' % next((i for i, (x, y) in enumerate(zip(w['text'], ref)) if x != y), min(len(ref), len(w['text']))))
+                if not same_text:
+                    corr_layout_bad.append((c['id'], W))
+                rr = w.get('read')
+                called('from_file(layout)')
+                bad = diff_read(rr, want_for(cfg, tk_), pk_, 'to_file/from_file round trip of a spectrum in memory layout %s (%s)' % (kind, json.dumps(lr.get('prm'))))
+                ctx.obligation('predicate %s / from_file' % W, not bad, 'predicate', '; '.join(bad))
+                if bad:
+                    pred_failed.add(c['id'])
+                    violation('layout:%s:read:%s' % (kind, cls_of(bad[0])), bad[0][:280], c, lr, layout=linfo)
+            un = lr.get('unchanged', {})
+            okun = all(un.get(st) for st in ('to_file', 'array_to_file', 'pickle'))
+            ctx.obligation('predicate %s: writing / pickling leaves the spectrum itself unchanged' % L, okun, 'predicate', repr(un))
+            if not okun:
+                pred_failed.add(c['id'])
+                violation('layout:%s:mutated' % kind, 'writing or pickling a spectrum in memory layout %s changed the spectrum itself (%r)' % (kind, un), c, lr, layout=linfo)
+            # generic array writer on the masked object and on the bare data view
+            for nm, (tk, txt) in arefs.items():
+                a = lr['array'][nm]
+                A = '%s array_to_file(%s)' % (L, nm)
+                if 'text' not in a:
+                    pred_failed.add(c['id'])
+                    ctx.obligation('predicate %s' % A, False, 'predicate', a.get('error', ''))
+                    violation('layout:%s:awrite' % kind, 'Numerics.array_to_file raised %s on the %s array of a spectrum in memory layout %s' % (a.get('error'), nm, kind), c, lr, layout=linfo)
+                    continue
+                called('array_to_file(layout)')
+                same_text = a['text'] == txt
+                ctx.obligation('%s: file written = Model.array_to_file of the logical content (Coq-certified reference text)' % A, same_text, 'correspondence')
+                if not same_text:
+                    corr_layout_bad.append((c['id'], A))
+                rr = a.get('read', {'error': 'not read'})
+                rr2 = dict(rr); rr2.setdefault('folded', None); rr2.setdefault('pop_ids', None); rr2['mask'] = [False] * len(rr.get('data', []))
+                aw_ = {'shape': shape, 'data': [float(t) for t in tk] if nm == 'masked' else c['_data'], 'toks': tk, 'mask': [False] * n,
+                       'folded': None, 'pop_ids': None, 'comments': comments_kept}
+                bad = diff_read(rr2, aw_, p, 'array_to_file/array_from_file round trip of the %s array of a spectrum in memory layout %s' % (nm, kind))
+                ctx.obligation('predicate %s / array_from_file' % A, not bad, 'predicate', '; '.join(bad))
+                if bad:
+                    pred_failed.add(c['id'])
+                    violation('layout:%s:array:%s' % (kind, cls_of(bad[0])), bad[0][:280], c, lr, layout=linfo)
+            # pickle
+            pkl = lr['pickle']
+            if 'reduce_error' in pkl:
+                pred_failed.add(c['id'])
+                ctx.obligation('predicate %s: copyreg pickler' % L, False, 'predicate', pkl['reduce_error']['error'])
+                violation('layout:%s:reduce' % kind, 'the copyreg pickler of Spectrum raised %s on a spectrum in memory layout %s' % (pkl['reduce_error']['error'], kind), c, lr, layout=linfo)
+            else:
+                called('copyreg pickler(layout)')
+                a = pkl['args']
+                mask_ok = ((a['mask_shape'] == shape and a['mask'] == o['mask']) or
+                           (lr.get('mask_is_nomask') and a['mask_shape'] == [] and a['mask'] == [False]))
+                args_ok = (a['data_shape'] == shape and len(a['data']) == n and all(same(x, y) for x, y in zip(a['data'], o['data'])) and mask_ok
+                           and a['folded'] == o['folded'] and a['pop_ids'] == o['pop_ids'] and a['extrap_x'] == o['extrap_x'])
+                ctx.obligation('%s: reduce tuple = Model.spectrum_pickler of the logical content (the tuple checked in Coq for the base layout)' % L, args_ok, 'correspondence',
+                               '' if args_ok else repr(a)[:300])
+                if not args_ok:
+                    corr_layout_bad.append((c['id'], L + ' reduce tuple'))
+                bad = diff_read(pkl['unpickled_args'], wantp, 17, 'Spectrum_unpickler on the reduce tuple of a spectrum in memory layout %s' % kind)
+                ctx.obligation('predicate %s: unpickler on the reduce tuple' % L, not bad, 'predicate', '; '.join(bad))
+                if bad:
+                    pred_failed.add(c['id'])
+                    violation('layout:%s:unpickle:%s' % (kind, cls_of(bad[0])), bad[0][:280], c, lr, layout=linfo)
+            for proto, rr in sorted(pkl['protocols'].items()):
+                called('pickle(layout)')
+                bad = diff_read(rr, wantp, 17, 'pickle protocol %s round trip of a spectrum in memory layout %s' % (proto, kind))
+                if rr.get('extrap_x', o['extrap_x']) != o['extrap_x']:
+                    bad.append('extrap_x=%r, expected %r' % (rr.get('extrap_x'), o['extrap_x']))
+                ctx.obligation('predicate %s: pickle protocol %s' % (L, proto), not bad, 'predicate', '; '.join(bad))
+                if bad:
+                    pred_failed.add(c['id'])
+                    violation('layout:%s:pickle:%s' % (kind, cls_of(bad[0])), bad[0][:280], c, lr, layout=linfo)
         exprs.append((c['id'], its.coq()))
         meta[c['id']] = (c, its)
 
@@ -562,15 +770,37 @@ def run(ctx):
             if not ok:
                 corr_bad.append((cid, name))
     # entry points must have been exercised (fail closed)
-    need = ['to_file', 'from_file', 'from_file(pre-1.3)', 'copyreg pickler', 'pickle', 'array_to_file', 'array_from_file', 'from_file(array file)']
+    need = ['to_file', 'from_file', 'from_file(pre-1.3)', 'copyreg pickler', 'pickle', 'array_to_file', 'array_from_file', 'from_file(array file)',
+            'to_file(layout)', 'from_file(layout)', 'array_to_file(layout)', 'copyreg pickler(layout)', 'pickle(layout)']
     for k in ([] if ctx.replay else need):
         ctx.obligation('entry point exercised: %s (%d calls)' % (k, calls.get(k, 0)), calls.get(k, 0) > 0, 'harness')
     ctx.stats.update({'calls_' + k.replace(' ', '_'): v for k, v in calls.items()})
-    # correspondence broken without any failing input of the property itself
-    if corr_bad and not [v for v in ctx.violations if v['key'] is None]:
-        cid, name = corr_bad[0]
-        c = meta[cid][0]
-        ctx.violation('model and implementation disagree on text (%d items, first: case %d, %s) but every round trip evaluated on the implementation still holds'
-                      % (len(corr_bad), cid, name),
-                      data={'case': {k: v for k, v in c.items() if not k.startswith('_')}, 'impl': byid[cid], 'items': corr_bad[:20]},
-                      no_input=True, broken='correspondence: ' + name)
+    # every memory layout must really have been exercised in the regime where memory order and logical order differ (fail closed)
+    if not ctx.replay:
+        big = ctx.pick(20, 400); small = ctx.pick(3, 40)
+        need_l = [(k, 'data_memory_order_differs', big) for k in ('reorder_pops', 'transpose', 'T', 'swapaxes', 'fortran', 'ctor_permuted', 'neg', 'nocopy_view')]
+        need_l += [(k, 'mask_memory_order_differs', small) for k in ('reorder_pops', 'transpose', 'T', 'swapaxes', 'fortran', 'ctor_permuted', 'neg', 'nocopy_view')]
+        need_l += [('step', 'data_not_c_contiguous', big), ('step', 'mask_not_c_contiguous', big), ('nocopy_view', 'data_negative_stride', big),
+                   ('mask_broadcast', 'mask_stride0', small), ('mask_scalar', 'built', small), ('nomask', 'mask_is_nomask', small)]
+        for kind, k, nmin in need_l:
+            have = lay_stats.get(kind, {}).get(k, 0)
+            ctx.obligation('memory layout exercised: %s - %d spectra, %d with %s (at least %d wanted)' % (kind, lay_stats.get(kind, {}).get('built', 0), have, k, nmin),
+                           have >= nmin, 'harness')
+    for kind, d0 in lay_stats.items():
+        for k, v in d0.items():
+            ctx.stats['layout_%s_%s' % (kind, k)] = v
+    # correspondence / source obligations broken without any failing input of the property itself
+    if (corr_bad or corr_layout_bad or src_broken) and not [v for v in ctx.violations if v['key'] is None]:
+        searched = ('searched %d spectra x %d memory-layout variants through to_file/from_file (2 configurations each), array_to_file/array_from_file '
+                    'and the pickler: every round trip evaluated on the implementation still holds'
+                    % (len(meta), sum(d0.get('built', 0) for d0 in lay_stats.values())))
+        if corr_bad or corr_layout_bad:
+            allbad = corr_bad + corr_layout_bad
+            cid, name = allbad[0]
+            c = meta[cid][0]
+            ctx.violation('model and implementation disagree on text (%d items, first: case %d, %s); %s' % (len(allbad), cid, name, searched),
+                          data={'case': {k: v for k, v in c.items() if not k.startswith('_')}, 'impl': byid[cid], 'items': allbad[:20]},
+                          no_input=True, broken='correspondence: ' + name)
+        else:
+            ctx.violation('the source is no longer the code the model was written against (%d obligations, first: %s); %s' % (len(src_broken), src_broken[0][:300], searched),
+                          data={'obligations': src_broken[:20]}, no_input=True, broken='source shape: ' + src_broken[0][:200])
